@@ -217,10 +217,18 @@ def f_int(eng, s, args, kw):
     (x,) = args
     x = eng.as_val(s, x)
     if x.ty is None:
-        t = eng.static_ty(s, x, ["str", "int"])
-        if t is None:
-            raise Unsupported("int() of unknown type")
-        x = eng.with_ty(s, x, t)
+        ok = z3.Or(z3.And(is_str(x.t), smt.int_ok(get_s(x.t))), is_int(x.t))
+        val = z3.If(is_str(x.t), smt.int_of(get_s(x.t)), get_i(x.t))
+        if eng.spec:
+            return [(sv_int(val), s)]
+        good, bad = eng.branch(s, ok)
+        if bad is not None:
+            b1, b2 = eng.branch(bad, is_str(x.t))
+            if b1 is not None:
+                eng.raise_exc(b1, ValueError)
+            if b2 is not None:
+                eng.raise_exc(b2, TypeError)
+        return [(sv_int(val), good)] if good is not None else []
     if x.ty == "int":
         return [(x, s)]
     if x.ty == "str":
@@ -321,7 +329,7 @@ def f_sorted(eng, s, args, kw):
              z3.ForAll([j], z3.Implies(z3.And(0 <= j, j < n),
                                        z3.And(0 <= perm(j), perm(j) < n, inv(perm(j)) == j,
                                               z3.Select(res, j) == z3.Select(seq.arr, perm(j)))),
-                       patterns=[z3.Select(res, j)]),
+                       patterns=[z3.Select(res, j), perm(j)]),
              z3.ForAll([j], z3.Implies(z3.And(0 <= j, j < n), z3.And(0 <= inv(j), inv(j) < n, perm(inv(j)) == j)),
                        patterns=[inv(j)]))
     # ordering
@@ -439,7 +447,7 @@ FUNCS = {
     "enumerate": f_enumerate, "zip": f_zip, "reversed": f_reversed, "range": f_range,
     "sorted": f_sorted, "max": f_max, "min": f_min, "sum": f_sum, "any": f_any, "all": f_all,
     "iter": f_iter, "next": f_next, "print": f_print, "abs": f_abs,
-    "warnings.warn": f_warn,
+    "warnings.warn": f_warn, "_warnings.warn": f_warn,
 }
 
 
